@@ -1089,6 +1089,10 @@ def check_required(fields, snap, path, bad, vt, c, tsteps):
         else:
             if nd["required"] and (v is None or len(v.items) == 0):
                 bad.append("validation passed but required list %s is empty" % pjoin(path, k))
+            if v is not None:
+                # configurations held in the list are validated like nested sub-configurations (F50 repair)
+                for i, it in enumerate(v.items):
+                    check_required(nd["fields"], it, "%s[%d]" % (pjoin(path, k), i), bad, vt, c, tsteps)
     # validators registered on this schema
     vals = vals_at(c, path_steps_of(c, tsteps, path))
     for n in vals:
